@@ -196,6 +196,10 @@ class DatasetSpec(object):
             else:
                 for k, p in enumerate(parts):
                     fn = 'raw_t%d%s' % (9 + k, self.raw_ext)   # t9, t10, t11: not in lexicographic order
+                    if self.notes.get('raw_same_name') and len(parts) > 1 and not self.notes.get('raw_symlink'):
+                        # Open Ephys style: run<k>/continuous.dat - every part has the same base name
+                        (d / ('run%d' % (9 + k))).mkdir(exist_ok=True)
+                        fn = 'run%d/continuous%s' % (9 + k, self.raw_ext)
                     with open(d / fn, 'wb') as f:
                         f.write(b'\x5a' * self.raw_offset)
                         f.write(np.ascontiguousarray(self.raw[i:i + p]).tobytes())
